@@ -79,6 +79,16 @@ def to_text(v):
     return str(v)
 
 
+class Tok(str):
+    """A lark Token: a str with .type and .value."""
+
+    def __new__(cls, type_, value):
+        o = str.__new__(cls, value)
+        o.type = type_
+        o.value = str(value)
+        return o
+
+
 class AObj:
     def __init__(self, cls, fields=None, label=None, origin=None, opaque=False):
         self.cls = cls
@@ -273,7 +283,7 @@ class Interp:
             return Opaque(f"{cname}({to_text(v)})", cls=cname)
         tbl = self.idx.enum_table(cname)
         for m, val in tbl.items():
-            if val == v and type(val) is type(v):
+            if (isinstance(val, str) and isinstance(v, str) and str(val) == str(v)) or (val == v and type(val) is type(v)):
                 return EnumV(cname, m, val)
         raise Raised("ValueError", f"{v!r} is not a valid {cname}")
 
@@ -361,6 +371,8 @@ class Interp:
             return a is b
         if isinstance(a, FlagV) and isinstance(b, FlagV):
             return a == b
+        if isinstance(a, str) and isinstance(b, str):
+            return str(a) == str(b)
         return a == b and type(a) is type(b) or (isinstance(a, (int, float)) and isinstance(b, (int, float)) and a == b)
 
     # ------------------------------------------------------------------ statements
@@ -756,6 +768,8 @@ class Interp:
                 return obj.member
             if isinstance(obj.value, str):
                 return StrMethod(obj.value, attr)
+        if isinstance(obj, Tok) and attr in ("type", "value"):
+            return getattr(obj, attr)
         if isinstance(obj, (str, Tmpl)):
             return StrMethod(obj, attr)
         if isinstance(obj, (list, dict)):
@@ -1069,8 +1083,15 @@ def _b_hasattr(i, a, k, t):
                 return True
             return any(name in i.idx.classes[c].class_attrs for c in i.idx.mro(obj.cls))
         return False
-    if isinstance(obj, (str, int, list, tuple)) or obj is None:
+    if isinstance(obj, Tok) and name in ("type", "value"):
+        return True
+    if isinstance(obj, (str, int, list, tuple, dict)) or obj is None:
         return hasattr(obj, name)
+    if isinstance(obj, AObj):
+        if name in obj.fields:
+            return True
+        if name == "__iter__":
+            return False
     return i.chooser.choose(t)
 
 
